@@ -98,7 +98,7 @@ pub fn assemble(pki: &Pki, c: &Value) -> (Vec<u8>, String) {
     let g = |k: &str| f[k].as_str().unwrap();
     let content = b"<message xmlns=\"http://www.apnic.net/specs/rescerts/up-down/\" version=\"1\"/>".to_vec();
     let mut digest = sha256(&content);
-    if g("digest") == "bad" { digest[31] ^= 1; }
+    match g("digest") { "bad" => digest[31] ^= 1, "short" => digest.truncate(31), "long" => digest.push(0x11), "empty" => digest.clear(), _ => {} }
     let ct = attribute(OID_AT_CONTENT_TYPE, der::oid(OID_CT_PROTOCOL));
     let md = attribute(OID_AT_MESSAGE_DIGEST, der::octets(&digest));
     let st = attribute(OID_AT_SIGNING_TIME, der::utctime("240301120000Z"));
